@@ -36,8 +36,23 @@ def main():
             src = abs_source(o, srel, d, cells)
         desc = {"nd": nd, "cells": list(cells), "d": list(d), "o": list(o), "kind": str(kind), "src": src.tolist(), "scls": str(scls), "v_hex": hx(v)}
         case = {"desc": desc, "status": "ok", "values": {}}
+        # input representations (same mathematical values): C order, Fortran order, strided view
+        vrep = str(rs.choice(["C", "F", "strided"]))
+        if vrep == "F":
+            vin = np.asfortranarray(v)
+        elif vrep == "strided":
+            big = np.zeros(tuple(2 * s_ for s_ in v.shape))
+            big[tuple(slice(None, None, 2) for _ in v.shape)] = v
+            vin = big[tuple(slice(None, None, 2) for _ in v.shape)]
+        else:
+            vin = v
+        desc["vrep"] = vrep
         try:
-            E = eik(nd)(v, d, o)
+            E = eik(nd)(vin, d, o)
+            if not bad and rs.rand() < 0.5:
+                # list form with the same source twice: every item must equal the single solve in both builds
+                lst = E.solve(np.array([src, src]), return_gradient=True)
+                case["values"]["list_traveltime"] = hx(lst[1].grid)
             tt = E.solve(src, nsweep=int(rs.choice([1, 2, 3])), return_gradient=True)
             case["values"]["traveltime"] = hx(tt.grid)
             case["values"]["gradient"] = hx(tt._gradient)
